@@ -186,6 +186,14 @@ pub fn explore(
     }
     let base: Vec<usize> = (0..n).filter(|i| pool.members[*i].base).collect();
 
+    if std::env::var("C03_PLAN").is_ok() {
+        let planned: usize = (0..n)
+            .map(|ci| {
+                if full_cross_rows.contains(&ci) { n + 1 } else { base.len() + 1 + by_hash.get(pool.members[ci].cert.previous_hash.as_str()).map(|v| v.len()).unwrap_or(0) }
+            })
+            .sum();
+        eprintln!("[C03] plan: seam A rows={} full-cross rows={} steps<={}", n, full_cross_rows.len(), planned);
+    }
     struct Part {
         rep: Report,
         found: Found,
@@ -314,7 +322,7 @@ pub fn check_graph(pool: &Pool, res: &mut SeamAResult) {
 pub fn chains_by_hash(
     pool: &Pool,
     genesis: &GenesisVerifier,
-    chain_defect: &[Option<String>],
+    chain_defect: &[Option<ChainDefect>],
     honest_base: &[bool],
     threads: usize,
 ) -> (Report, Found) {
@@ -340,11 +348,10 @@ pub fn chains_by_hash(
                 rep.outcome("A-chain:accepted");
                 rep.nontrivial(&("A-chain", ci));
                 if let Some(d) = &chain_defect[ci] {
-                    let key = if d.starts_with("forward-epoch") { KEY_FORWARD.to_string() } else { format!("C03/chain-accepted:{}", d.split(' ').next().unwrap_or("")) };
                     found(
                         &mut fnd,
-                        &key,
-                        format!("verify_certificate_chain({}) = Ok with an honest-by-hash provider, but its hash-linked chain is invalid: {d}", pool.label(ci)),
+                        &d.key,
+                        format!("verify_certificate_chain({}) = Ok with an honest-by-hash provider, but its hash-linked chain is invalid: {}", pool.label(ci), d.text),
                         json!({"seam": "A-chain", "certificate": pool.label(ci)}),
                     );
                 }
@@ -376,9 +383,23 @@ pub fn chains_by_hash(
     (rep, all)
 }
 
+/// First defect met when following the hash-linked chain of a certificate.
+#[derive(Clone, Debug)]
+pub struct ChainDefect {
+    /// classifier key naming the kind of defect (same keys as the step judgement)
+    pub key: String,
+    pub text: String,
+    /// member at which the defect sits: the defective certificate, or the child of the defective link
+    pub at: usize,
+    /// the defect is the certificate `at` itself (false: its link to the previous certificate)
+    pub is_node: bool,
+    /// members from the start down to `at` (inclusive)
+    pub path: Vec<usize>,
+}
+
 /// Reference: is the hash-linked chain from each member valid down to a valid genesis? Links are
 /// resolved to the unique member whose *recomputed* hash equals the link.
-pub fn chain_defects(certs: &[&Certificate], facts: &[NodeFacts]) -> Vec<Option<String>> {
+pub fn chain_defects(certs: &[&Certificate], facts: &[NodeFacts]) -> Vec<Option<ChainDefect>> {
     let mut real: BTreeMap<&str, usize> = BTreeMap::new();
     for (i, c) in certs.iter().enumerate() {
         if facts[i].hash_ok {
@@ -389,27 +410,40 @@ pub fn chain_defects(certs: &[&Certificate], facts: &[NodeFacts]) -> Vec<Option<
     (0..n)
         .map(|start| {
             let mut cur = start;
+            let mut path = vec![];
             for _ in 0..=n {
+                path.push(cur);
                 let f = &facts[cur];
+                let c = certs[cur];
+                let here = if cur == start { "the certificate itself".to_string() } else { format!("certificate {} (epoch {}) {} step(s) down the chain", &c.hash[..8.min(c.hash.len())], c.epoch.0, path.len() - 1) };
                 if let Some(d) = f.first_defect() {
-                    return Some(format!("{d} at step-{}", if cur == start { "start".to_string() } else { certs[cur].hash[..8].to_string() }));
+                    let key = if f.is_genesis { format!("C03/genesis-accepted:{d}") } else { format!("C03/certificate-accepted:{d}") };
+                    return Some(ChainDefect { key, text: format!("{d} at {here}"), at: cur, is_node: true, path });
                 }
                 if f.is_genesis {
                     return None;
                 }
-                let c = certs[cur];
                 let Some(&p) = real.get(c.previous_hash.as_str()) else {
-                    return Some(format!("dangling-link: no certificate has hash {}", c.previous_hash.get(..8).unwrap_or("")));
+                    return Some(ChainDefect {
+                        key: "C03/link-accepted:dangling".into(),
+                        text: format!("no certificate has the hash {} that {here} links to", c.previous_hash.get(..8).unwrap_or("")),
+                        at: cur,
+                        is_node: false,
+                        path,
+                    });
                 };
                 if let Some(d) = link_defect(c, certs[p]) {
-                    if d == "link-to-following-epoch" && is_pure_forward_epoch_link(c, certs[p]) {
-                        return Some(format!("forward-epoch link from epoch {} to epoch {}", c.epoch.0, certs[p].epoch.0));
-                    }
-                    return Some(format!("{d} (epoch {} -> {})", c.epoch.0, certs[p].epoch.0));
+                    let text = format!("{d}: link of {here} to a certificate of epoch {}", certs[p].epoch.0);
+                    let key = if d == "link-to-following-epoch" && is_pure_forward_epoch_link(c, certs[p]) {
+                        KEY_FORWARD.to_string()
+                    } else {
+                        format!("C03/link-accepted:{d}")
+                    };
+                    return Some(ChainDefect { key, text, at: cur, is_node: false, path });
                 }
                 cur = p;
             }
-            Some("no-genesis-reached (cycle)".into())
+            Some(ChainDefect { key: "C03/accepted-links-form-a-cycle".into(), text: "no genesis certificate is ever reached".into(), at: start, is_node: false, path })
         })
         .collect()
 }
